@@ -71,8 +71,14 @@ impl Val for Coarse {
 }
 impl Val for f64 {
     fn of(v: u32) -> f64 {
-        // includes -0.0 (v = 0), which == cannot tell from the all-zero bit pattern +0.0
-        if v % 8 == 0 { -0.0 } else { (v % 8) as f64 }
+        // includes -0.0 (v = 0), which == cannot tell from the all-zero bit pattern +0.0, and NaN
+        // (two bit patterns), which == cannot even tell to be itself
+        match v % 16 {
+            0 | 8 => -0.0,
+            7 => f64::NAN,
+            15 => f64::from_bits(0x7ff8_0000_0000_0001),
+            k => (k % 8) as f64,
+        }
     }
     fn bits(&self) -> u64 {
         self.to_bits()
@@ -420,7 +426,7 @@ pub fn run(cfg: &Cfg) -> i32 {
     engine::finish(
         report,
         EvidenceSpec {
-            rule: "cases = programs of 0-400 add / replace_if / get operations over tables of size 2^0..2^16 (2^20 thorough) with entry types u8, u32, a Copy struct, a struct whose == / ordering look at one field only, and f64 (default -0.0 among the values): values are compared bit for bit; hashes are drawn to collide (same slot with different high bits, multiples of the size, bits above 32 or bit 63 only, 0, u64::MAX) and predicates (old<arg, old==arg, true, false) over a small value domain; after every operation and in a final scan of all touched hashes, stored hashes and slot probes, get() is compared with a vector model (slot = hash mod size, initial content (0, default)); plus a few tables of 2^21 and 2^22 entries driven with hashes that agree in their low 8-22 bits against a sparse model; plus CacheTable::new on 90+ non-power-of-two sizes (must panic) and on 2^0..2^20 (must not). evaluations = programs + sizes. Non-trivial = program with at least one collision overwrite and one refused replace_if; distinct = program fingerprints.".into(),
+            rule: "cases = programs of 0-400 add / replace_if / get operations over tables of size 2^0..2^16 (2^20 thorough) with entry types u8, u32, a Copy struct, a struct whose == / ordering look at one field only, and f64 (-0.0 and two NaN bit patterns among the values): values are compared bit for bit; hashes are drawn to collide (same slot with different high bits, multiples of the size, bits above 32 or bit 63 only, 0, u64::MAX) and predicates (old<arg, old==arg, true, false) over a small value domain; after every operation and in a final scan of all touched hashes, stored hashes and slot probes, get() is compared with a vector model (slot = hash mod size, initial content (0, default)); plus a few tables of 2^21 and 2^22 entries driven with hashes that agree in their low 8-22 bits against a sparse model; plus CacheTable::new on 90+ non-power-of-two sizes (must panic) and on 2^0..2^20 (must not). evaluations = programs + sizes. Non-trivial = program with at least one collision overwrite and one refused replace_if; distinct = program fingerprints.".into(),
             assumptions: vec!["out-of-bounds accesses are observed through the unsafe-precondition checks of get_unchecked in the `checked` profile (abort -> fatal-signal handler -> violation) and through the libFuzzer+ASan target cache_prog in the thorough tier".into()],
             trusted_base: vec!["harness/src/props/c19.rs vector model".into(), "proptest 1.11".into()],
             exhaustive: None,
